@@ -1,6 +1,6 @@
 #!/bin/bash
-# usage: confirm_round2.sh <ID>  -- confirm /tmp/mut2/OUT/<ID> as seeded/<ID>-C
-ID=$1; SRC=/tmp/mut2/OUT/$ID
+# usage: confirm_round2.sh <ID>  -- confirm /tmp/mut3/OUT/<ID> as seeded/<ID>-C
+ID=$1; SRC=/tmp/mut3/OUT/$ID
 python3 - <<PY > $SRC/demo_path.txt
 import json,re
 c=json.load(open('$SRC/meta.json'))['demo_cmd']
@@ -8,4 +8,4 @@ m=re.findall(r'(internal/[A-Za-z0-9_/]+)/?\s',c)
 print((m[0] if m else 'internal/app').rstrip('/')+'/')
 PY
 rm -f $SRC/property.txt.bak
-/verif/tools/confirm_mutant.sh $SRC $ID-C 2>&1 | tail -5
+/verif/tools/confirm_mutant.sh $SRC $ID-${2:-C} 2>&1 | tail -5
